@@ -48,7 +48,7 @@ pub fn generate(ctx: &Ctx, prop: &str, thorough: bool, run_seed: u64, index: u64
             (Case::Uci(c), gen_sched(&mut sr, 60_000_000))
         }
         "C03" | "C04" | "C06" | "C17" | "C19" => {
-            let c = crate::search::generate(ctx, prop, &mut wl, thorough);
+            let c = crate::search::generate(ctx, prop, &mut wl, thorough, index);
             let cap = crate::search::step_cap(&c);
             (Case::Search(c), gen_sched(&mut sr, cap))
         }
